@@ -481,7 +481,7 @@ func sameObject(a ociregistry.Interface, raw any) bool {
 
 func c02Alphabet(u *universe, tier string, chunked bool) alphabetConfig {
 	c := alphabetConfig{Repos: u.Repos, BadRepo: true, Chunked: chunked, MaxUploads: 1, MaxUpload: 3,
-		Manifests: []int{0, 1, 2, 3, 4, 5, 6, 7, 8, 9, 10, 11}, Blobs: []int{0, 1, 2}, Deletes: true, Mounts: true, BadPushes: true, UntaggedToo: true, FinishedOps: true, ExplicitIDs: true, AltBlobMT: true, ReadsOp: true}
+		Manifests: []int{0, 1, 2, 3, 4, 5, 6, 7, 8, 9, 10, 11}, Blobs: []int{0, 1, 2}, Deletes: true, Mounts: true, BadPushes: true, UntaggedToo: true, FinishedOps: true, ExplicitIDs: true, AltBlobMT: true, ReadsOp: true, SelfMounts: true}
 	return c
 }
 
